@@ -47,3 +47,8 @@ def run(ctx):
     import r_asmsym
     ctx.run_rule("R1asm1", r_asmsym.rule_R1asm_single)
     ctx.run_rule("R1asmX", r_asmsym.rule_R1asm_xof)
+    ctx.run_rule("X0", r_xof.rule_X0, ["asm-full"])
+    # the XOF block function is compress_xof of whichever kernel is selected: the Rust and C single-block kernels, lane-precise
+    ctx.run_rule("R1rv", r_round.rule_R1_rvec, ["pure-full"])
+    ctx.run_rule("R1cv", r_round.rule_R1_cvec)
+    ctx.run_rule("R1p", r_round.rule_R1_portable, ["asm-full", "portable1"])
